@@ -447,6 +447,10 @@ func c03Alphabet(s *sessSys) []sessReq {
 				p2[0].QERs, p2[1].QERs = []uint32{1, 4}, []uint32{2, 4}
 				q2 := []sQER{{ID: 1, QFI: 5, MBRUL: 1000, MBRDL: 1000}, {ID: 2, QFI: 5, MBRUL: 2000, MBRDL: 2000, GateDL: 1}, {ID: 4, QFI: 0, MBRUL: 90000, MBRDL: 90000}}
 				add("est-3qer", sessReq{sReq: sReq{Kind: kEst, Conn: c, CPSEID: uint64(10 + n), CreatePDR: p2, CreateFAR: f2, CreateQER: q2}})
+				// QER lists of three identifiers with the session-wide QER first / in the middle
+				p3, f3, _ := rsBasic(ue, teid, "11.1.1.130")
+				p3[0].QERs, p3[1].QERs = []uint32{4, 1, 2}, []uint32{2, 4, 1}
+				add("est-3qer-lists-of-3", sessReq{sReq: sReq{Kind: kEst, Conn: c, CPSEID: uint64(10 + n), CreatePDR: p3, CreateFAR: f3, CreateQER: q2}})
 				// SDF pairs above default rules. (An SDF whose remote side is "any" has the same match key as the default
 				// rule; BESS keeps one entry per key and which of the two concurrent adds lands last is schedule dependent,
 				// so that family is used without default rules here and left to the scheduler engine.)
